@@ -79,6 +79,7 @@ func wireOf(P *Program, vt *VersionTable, fn *ssa.Function, proto int64) (wAuto,
 }
 
 func runC04(c *Ctx) {
+	checkForgeShortLayout(c, "forge-short-layout")
 	vt, err := evalVersionTable(c.P)
 	if err != nil {
 		c.Undecided("table", "version.Versions", err.Error())
